@@ -510,7 +510,11 @@ func (c *wsConn) handleResponse(frame frame) {
 	}
 	vpoint(c, "resp.deliver", "id", frame.ID)
 	c.inflightLk.Lock()
-	delete(c.inflight, frame.ID)
+	// only remove the request this response was delivered to: a retried call may
+	// have re-registered the same id in the meantime (after a reconnect)
+	if cur, ok := c.inflight[frame.ID]; ok && cur.ready == req.ready {
+		delete(c.inflight, frame.ID)
+	}
 	vpoint(c, "inflight.del", "id", frame.ID)
 	c.inflightLk.Unlock()
 }
